@@ -25,9 +25,9 @@ PROPS = {
         "assumptions": ["downstream code never sees the feature: checked by the frame scan above"],
     },
     "C03": {
-        "units": {"front": FRONT_PARSE, "solver": ["solve_expression", "solve", "match_all", "match_of", "slow_aho", "search", "lemma_syntax_to_wf", "lemma_match_unfold", "lemma_ids_wf", "lemma_matrix_cells"], "matrix": MATRIX_FNS, "rewrite": REWRITE_FNS, "scan": ["ident_scan"]},
-        "explanation": "every panic site of the extracted solver functions is discharged from wf(); the condition parser is proved to establish wf_syntax (operands of and/or/not are predicates), and lemma_syntax_to_wf bridges the two; matrix() is proved panic-free (char::from_u32(..).expect, the final expect, arithmetic) and to return a well-formed expression - in particular every Matrix cell only asks for column keys below the table width, which is what the solver's Matrix arm needs; the loader's identifier-existence scan is proved at token level; rewrite() / rewrite_search() are proved panic-free (the rebuilt regex may fail to build: the original is kept) and shape-preserving, hence wf-preserving",
-        "assumptions": ["identifier existence: the scan loop of the serde visitor is proved (slice ident_scan: a rule is accepted iff every identifier TOKEN outside a cast / not( field position names an entry); the step from tokens to the parsed tree (an Identifier node of p_parse comes from such a token) is the remaining assumed link closed(e, ids)",
+        "units": {"front": FRONT_PARSE + ["lemma_closed_parse", "lemma_closed_expr", "lemma_closed_loop", "lemma_closed_led", "lemma_closed_nud", "lemma_split", "lemma_sub_scanned"], "solver": ["solve_expression", "solve", "match_all", "match_of", "slow_aho", "search", "lemma_syntax_to_wf", "lemma_match_unfold", "lemma_ids_wf", "lemma_matrix_cells"], "matrix": MATRIX_FNS, "rewrite": REWRITE_FNS, "scan": ["ident_scan"]},
+        "explanation": "every panic site of the extracted solver functions is discharged from wf(); the condition parser is proved to establish wf_syntax (operands of and/or/not are predicates), and lemma_syntax_to_wf bridges the two; matrix() is proved panic-free (char::from_u32(..).expect, the final expect, arithmetic) and to return a well-formed expression - in particular every Matrix cell only asks for column keys below the table width, which is what the solver's Matrix arm needs; the loader's identifier-existence scan is proved at token level and lifted to the parsed tree (lemma_closed_parse: an Identifier node only comes from a token the scan looks up); rewrite() / rewrite_search() are proved panic-free (the rebuilt regex may fail to build: the original is kept) and shape-preserving, hence wf-preserving",
+        "assumptions": ["identifier existence is proved in two steps over shared definitions (spec/closed_defs.rs): the scan loop of the serde visitor accepts iff every identifier TOKEN outside a cast / not( field position names an entry (slice ident_scan), and lemma_closed_parse: for such a token sequence every Identifier node of p_parse(tokens) - to which the real parser is proved equal - names an entry (closed_in); what is not mechanised is only the gluing of the three facts inside the visitor function (it is a serde visitor: not under contract as a whole) and the textual identity of closed_in with the solver unit's closed",
                         "identifier bodies built by parse_mapping are assumed well formed (ids_wf)"],
     },
     "C04": {
